@@ -31,6 +31,9 @@ Decodable == Done =>
              /\ DecodeBody(K, RefRender(K, Parts)) = FilterParts(K, Parts)
              /\ (K.quote # NONE =>
                    DecodeLiteral(K, <<K.quote>> \o RefRender(K, Parts) \o <<K.quote>>) = FilterParts(K, Parts))
+             \* the literal in the form the configuration asks for (bare where conditional quoting leaves it bare)
+             /\ DecodeLiteral(K, IF MustQuote(K, Parts) THEN <<K.quote>> \o RefRender(K, Parts) \o <<K.quote>> ELSE RefRender(K, Parts))
+                   = FilterParts(K, Parts)
 \* parts never contain an escape state: literal chars are >= 0, wildcards STAR/QM
 PartsTyped == \A j \in 1..Len(st.acc) : st.acc[j] >= 0 \/ IsWild(st.acc[j])
 \* the parser is injective up to the documented equivalences: a text without backslash
